@@ -29,6 +29,7 @@ pub fn run(ctx: &mut Ctx) -> bool {
         "C03" => backends::run_c03(ctx),
         "C16" => align::run_c16(ctx),
         "C18" => conc::run_c18(ctx),
+        "C20" => backends::run_c20(ctx),
         "C11" => chacha_stream::run_c11(ctx),
         "C14" => chacha_guts::run_c14(ctx),
         "C15" => chacha_guts::run_c15(ctx),
